@@ -56,3 +56,10 @@ Definition f5_history : list hstep :=
 Definition k9_hook : hook := mkHook (mkRes "ConfigMap" "hx" [("d:h", "1")]) [PreInstall; PreDelete] 0 [HookFailed].
 Definition k9_history : list hstep :=
   [ faulted (OpInstall fl_atomic 1 1 [cmr "a" "v1"] [k9_hook]) (mkCF (Some (VCreate, "ConfigMap/a")) None false) ].
+
+(* what the code does on a failed ROLLBACK (excluded from previous_stays_deployed by the
+   property text): install {a}; upgrade to {a'}; rollback with PATCH a rejected *)
+Definition rb_history : list hstep :=
+  [ clean (OpInstall fl0 1 1 [cmr "a" "v1"] []);
+    clean (OpUpgrade fl0 2 2 [cmr "a" "v2"] []);
+    faulted (OpRollback fl0) (mkCF (Some (VPatch, "ConfigMap/a")) None false) ].
